@@ -53,6 +53,57 @@ BLOCKS = [
     ("_s = 'a'", '_u = [1, 2][0]'),
 ]
 
+# ---- fenced verbatim blocks of every shape (C13: accepted with the syntax check => build_model and instantiation work) --
+
+BLOCK_BODIES = [
+    ('pass',), ('self.Z_ = 1',), ('_t = self.X[t] + 1', 'self.Y[t] = max(_t, 0)'),
+    ('if self.X[t] > 0:', '    self.Y[t] = 1'), ('for _i in range(2):', '    pass'),
+    ('if True:', '    pass', 'else:', '    pass'), ('while False:', '    break'),
+    ('try:', '    pass', 'except Exception:', '    pass'), ('if self.X[t] > 0:', '    if True:', '        pass'),
+    ('class _C:', '    pass'), ('def _f(a):', '    return a'), ('_v = [', '    1,', '    2]'),
+    # dangling / incomplete
+    ('if True:',), ('for _i in range(2):',), ('else:',), ('def _f():',), ('_v = (1,',), ('_v = 1)',), ('x = 1 \\',),
+    ("_s = '''a", "b'''"), ('    ',), (),
+    # valid only at module level, or only inside a function
+    ('return',), ('return 1',), ('yield 1',), ('_g = (yield)',), ('await _x',), ('nonlocal _n',), ('global _g', '_g = 1'),
+    ('from __future__ import annotations',), ('from os import *',), ('import os',), ('break',), ('continue',),
+    ('__class__',), ('super().solve_t_before(t)',), ('del self',), ('print("hi")',), ('CANARY()',), ('1 is 1',),
+]
+
+
+def _shapes(lines):
+    """The same block under every indentation / whitespace shape."""
+    yield 'as-is', lines
+    for name, pre in (('indent4', '    '), ('indent2', '  '), ('tab', '\t'), ('indent1', ' ')):
+        yield name, tuple(pre + ln for ln in lines)
+    if lines:
+        yield 'first-line-indented', ('    ' + lines[0],) + tuple(lines[1:])
+        yield 'rest-indented', (lines[0],) + tuple('    ' + ln for ln in lines[1:])
+        yield 'mixed-tab-space', tuple(('\t' if i % 2 == 0 else '        ') + ln for i, ln in enumerate(lines))
+        yield 'trailing-whitespace', tuple(ln + ('  ' if i % 2 == 0 else '\t') for i, ln in enumerate(lines))
+        yield 'blank-lines', ('',) + tuple(lines) + ('', '   ')
+        yield 'comment-lines', ('# note',) + tuple(ln + '  # c' for ln in lines)
+        yield 'dedent-last', tuple('    ' + ln for ln in lines[:-1]) + (lines[-1],)
+
+
+def block_scripts():
+    """(label, script): every body x shape x context (alone, after an equation, between equations, twice), plus
+    variations of the fence lines themselves."""
+    for bi, body in enumerate(BLOCK_BODIES):
+        for shape, lines in _shapes(body):
+            block = '\n'.join(('```',) + tuple(lines) + ('```',))
+            label = f'body{bi}:{shape}'
+            yield label + ':alone', block
+            yield label + ':after', 'Y = X\n' + block
+            yield label + ':between', 'Y = X\n' + block + '\nZ = Y[-1]'
+        block = '\n'.join(('```',) + tuple(body) + ('```',))
+        yield f'body{bi}:twice', block + '\nY = X\n' + block
+        yield f'body{bi}:fence-python', '```python\n' + '\n'.join(body) + '\n```'
+        yield f'body{bi}:fence-trailing-space', '```  \n' + '\n'.join(body) + '\n```  '
+        yield f'body{bi}:long-fence', '`````\n' + '\n'.join(body) + '\n`````'
+        yield f'body{bi}:fence-comment', '```  # open\n' + '\n'.join(body) + '\n```  # close'
+
+
 CONFIGS = [
     dict(),
     dict(allow_verbatim=True),
